@@ -295,7 +295,7 @@ def obligations(tier, seed):
     for (sn, i, pks) in prim:
         p = {"schema": sn, "doc": i, "prim": True}
         if tier == "quick":
-            p.update(slices=[0, 2, 5, 7, 12, 13])
+            p.update(slices=[0, 2, 5, 7, 12, 13, common.templates.nslices(sn)])    # last = the empty slice
         size = common.templates.doc(sn, i).content.size
         for pk in pks:
             for lo in (range(0, size + 1, 4) if pk == 0 else [0]):
